@@ -18,6 +18,9 @@ RULE = (
     'single-level factor, designs without response / without common part (each member on its own printed line '
     'with its own shape), non-default index labels, a later design on another frame, an in-place edit followed '
     'by re-evaluation, the one-row frame. '
+    'Later: shared effect sides, repeated index labels with incomplete rows, 1500-row frames, label lists '
+    'extended by the caller, blank-variant and float levels, every design once more under changed process-wide '
+    'settings. '
 )
 ASSUMPTIONS = ["unseen groups are evaluated in 'silent' mode", "a label view of a widened group matrix is not demanded"]
 
